@@ -1108,6 +1108,12 @@ def explore(ctx: Ctx, f: FunctionInfo, starts: Iterable[int], env: Optional[Dict
         a = n.ast
         if n.kind == "stmt" and isinstance(a, ast.Assign) and len(a.targets) == 1 and isinstance(a.targets[0], ast.Name):
             store[a.targets[0].id] = value_of(a.value, nid, store)
+        elif n.kind == "stmt" and isinstance(a, ast.Assign) and len(a.targets) == 1 and isinstance(a.targets[0], (ast.Tuple, ast.List)):
+            tv = value_of(a.value, nid, store)
+            elts = a.targets[0].elts
+            for i, t in enumerate(elts):
+                if isinstance(t, ast.Name):
+                    store[t.id] = tv[i] if isinstance(tv, tuple) and len(tv) == len(elts) else UNKNOWN
         elif n.kind == "stmt" and isinstance(a, ast.Return) and nid in ret_call:
             store[("ret", ret_call[nid])] = value_of(a.value, nid, store)
         elif n.kind == "stmt" and isinstance(a, (ast.AugAssign,)) and isinstance(a.target, ast.Name):
@@ -1126,6 +1132,8 @@ def explore(ctx: Ctx, f: FunctionInfo, starts: Iterable[int], env: Optional[Dict
                             work.append((t, store, asm2))
                     continue
             if v is UNKNOWN:
+                if set(names_in(a)) & (set(env) | {k for k in store if isinstance(k, str)}):
+                    store[("undecided", nid)] = True  # a branch on scenario data that could not be evaluated: both ways
                 for d, l in g.succ[nid]:
                     if l in NORMAL:
                         work.append((d, store, asm))
